@@ -57,6 +57,9 @@ fn def_contexts() -> Vec<String> {
         format!("{}\n{}\n{}\n{}", JDEF_U, EXTRA2, JDEF, EXTRA1),
         // tables whose names differ only in letter case (a query naming none of them exactly must behave the same in every run)
         format!("{}\n{}\n{}\n{}", JDEF.replace("TABLE t(", "TABLE TT("), JDEF, JDEF.replace("TABLE t(", "TABLE tT(").replace("{ .v } => v INT", "{ .s } => v TEXT"), JDEF_U),
+        // the joined table defined differently under the same name (a process that ran the other contexts before must
+        // print what a process that starts here prints: odd-numbered child processes walk the contexts in reverse order)
+        format!("{}\n{}", JDEF, "CREATE TABLE u({ .k } => k TEXT, { .y } => y INT, { .k } => w TEXT);"),
     ]
 }
 
@@ -88,10 +91,15 @@ pub fn child(args: &[String]) -> i32 {
     let joined = tmp.paths[0].clone();
     let stmts = statements(&joined);
     let defs = def_contexts();
-    let mut case_no = 0;
-    for (di, d) in defs.iter().enumerate() {
+    let mut order: Vec<usize> = (0..defs.len()).collect();
+    if proc_index % 2 == 1 {
+        order.reverse();
+    }
+    for di in order {
+        let d = &defs[di];
         for (si, s) in stmts.iter().enumerate() {
-            for fmt in ["text", "json"] {
+            for (fi, fmt) in ["text", "json"].into_iter().enumerate() {
+                let case_no = (di * stmts.len() + si) * 2 + fi;
                 let mut outputs: BTreeMap<String, Vec<u64>> = BTreeMap::new();
                 let mut canaries: BTreeSet<String> = BTreeSet::new();
                 let mut first: Vec<String> = vec![];
@@ -126,7 +134,6 @@ pub fn child(args: &[String]) -> i32 {
                     outputs.entry(key).or_default().push(seed);
                 }
                 println!("{}", json!({"case": case_no, "defs": di, "stmt": si, "statement": s.replace(&joined, "<joined>"), "format": fmt, "outputs": outputs, "canaries": canaries, "first": first, "shim": shim_ok || !shim_expected}));
-                case_no += 1;
             }
         }
     }
@@ -143,7 +150,7 @@ pub fn run(ctx: &Ctx) -> i32 {
         &col,
         Finish {
             level: "exploration",
-            rule: "statement corpus (wildcards, joins with fan-out, multi-aggregate GROUP BY / HAVING with discriminating conditions, DISTINCT, COUNT(DISTINCT), string/array aggregation, tables whose names differ only in case) x 2 formats x 4 table-definition contexts x controlled hash seeds (fresh thread per replica, keys set through the LD_PRELOAD getrandom shim) x fresh processes; oracle: byte-identical printed output. Exhaustive over the bounded seed set, not over the 2^128 key space. Non-trivial: within the case at least two different canary iteration orders were observed and the output is non-empty.".into(),
+            rule: "statement corpus (wildcards, joins with fan-out, multi-aggregate GROUP BY / HAVING with discriminating conditions, DISTINCT, COUNT(DISTINCT), string/array aggregation, tables whose names differ only in case) x 2 formats x 5 table-definition contexts (walked in opposite orders by even and odd child processes, one of them redefining the joined table) x controlled hash seeds (fresh thread per replica, keys set through the LD_PRELOAD getrandom shim) x fresh processes; oracle: byte-identical printed output. Exhaustive over the bounded seed set, not over the 2^128 key space. Non-trivial: within the case at least two different canary iteration orders were observed and the output is non-empty.".into(),
             exhaustive: true,
             assumptions: vec!["std's RandomState takes its keys from libc getrandom (verified at run time through the magic call and the canary map)".into(), "now() excluded; TZ=UTC".into()],
             bounds: json!({"processes": nproc, "seeds": nseeds}),
